@@ -633,6 +633,44 @@ def gen_case(ctx, idx, seed, root, big, state_override=None, now_override=None):
     # whatever the bytes, the state must have survived the rewrite
     if rc == 0:
         compare_dumps(ctx, A, want, now, tag + '_after_rewrite', rep)
+    # the same state with its DELETED blocks at unused positions still in the file (not cleaned): the real save must drop exactly
+    # those and keep the hash of every other one (independent decoder), and write what the model writes
+    rawx = ctx.model.ask('rawencode %x %s' % (now, sl))
+    try:
+        raw = bytes.fromhex(rawx)
+    except ValueError:
+        raw = None
+    if raw is not None and raw != data and len(raw) < 200000:
+        A.install(raw)
+        pred = ctx.model.ask('reencode %x %s %s' % (now, A.model_conf(), L.hx(raw)))
+        rc, out = A.run(['test-rewrite'], now=now)
+        d3 = A.content(0)
+        rrep = dict(replay, content_hex=raw.hex(), note='file with DELETED blocks at unused positions')
+        with ctx.lock:
+            ctx.stats['commands'] += 1
+            ctx.stats['uncleaned_files'] = ctx.stats.get('uncleaned_files', 0) + 1
+        bad = None
+        if rc == 0 and d3:
+            try:
+                got = {nm.encode('latin1'): dd['deleted'] for nm, dd in CT.parse(d3, 16)['disks'].items()}
+                for d in want['disks']:
+                    exp = dict(d['deleted'])
+                    if got.get(d['name'], {}) != exp:
+                        g = got.get(d['name'], {})
+                        pos = sorted(set(g) ^ set(exp) | {q for q in set(g) & set(exp) if g[q] != exp[q]})[:4]
+                        bad = 'disk %s: DELETED blocks after the save differ from the ones of the used positions before it at positions %s: %s, expected %s' % (
+                            d['name'].decode('latin1'), pos, [(q, g[q].hex()) for q in pos if q in g], [(q, exp[q].hex()) for q in pos if q in exp])
+                        break
+            except Exception as e:
+                bad = 'the independent decoder cannot read the rewritten file: %r' % (e,)
+        if rc != 0:
+            ctx.viol(tag + '_uncleaned', '%s: the tool does not load (rc %d) a content file whose only oddity is DELETED blocks at unused positions, which the model '
+                     'loads: %s' % (tag, rc, out[-200:].decode('latin1')), rrep, no_input=not pred.startswith('ok '))
+        elif bad:
+            ctx.viol(tag + '_uncleaned', '%s: saving a state that holds DELETED blocks at unused positions: %s' % (tag, bad), rrep)
+        elif not pred.startswith('ok ') or bytes.fromhex(pred[3:]) != d3:
+            ctx.viol(tag + '_uncleaned', 'MODEL-DRIFT %s: rewrite of a file with DELETED blocks at unused positions differs from the model\'s (first difference at byte %d)'
+                     % (tag, first_diff(bytes.fromhex(pred[3:]) if pred.startswith('ok ') else b'', d3 or b'')), rrep, no_input=True)
     with ctx.lock:
         if len(data) < 100000:
             ctx.valid_files.append((A.model_conf(), data))
